@@ -393,7 +393,7 @@ def build_scenarios(ctx):
                     i += 1
         sc.append(clobber_cfg(0, "astronomical", "npy", "f64", 2))
         sc.append(clobber_cfg(3, "astronomical", "fits", "f32", 4))
-        sc.append(clobber_cfg(3, "planetary", "png", "rgb", 1))
+        sc.append(clobber_cfg(3, "planetary", "png", "rgb", 2))
         sc.append(clobber_cfg(2, "planetary", "png", "f64", 1, fmt="npy"))
         sc.append(clobber_cfg(2, "astronomical", "npy", "rgb", 2, fmt="png"))
         sc.append(clobber_cfg(2, "astronomical", "npy", "f64", 1, scheme="LXY"))
@@ -444,12 +444,35 @@ def _timeout_for(cfg):
     return 60 + 25 * (4 ** max(cfg["depth"] - 2, 0)) * len(cfg["passes"])
 
 
+def run_batch(cfgs):
+    """Isolated entry point: several scenarios in one interpreter (start-up cost is ~1.3 s)."""
+    return [run_scenario(c) for c in cfgs]
+
+
+def execute_batch(cfgs, workdirs):
+    """-> list of (status, result, secs, timeout) per scenario.  A batch that times out or crashes is
+    re-run scenario by scenario so that the failure is attributed to the right one."""
+    cs = []
+    for cfg, wd in zip(cfgs, workdirs):
+        c = dict(cfg)
+        c["workdir"] = wd
+        cs.append(c)
+    t = sum(_timeout_for(c) for c in cfgs)
+    status, res, secs = call_isolated(MOD, "run_batch", {"cfgs": cs}, t)
+    if status == "ok":
+        return [("ok", r, secs / len(cs), _timeout_for(c)) for r, c in zip(res, cfgs)]
+    if len(cs) == 1:
+        return [(status, res, secs, t)]
+    out = []
+    import shutil
+    for c, wd in zip(cfgs, workdirs):
+        shutil.rmtree(wd, ignore_errors=True)
+        out.extend(execute_batch([c], [wd]))
+    return out
+
+
 def execute(cfg, workdir):
-    c = dict(cfg)
-    c["workdir"] = workdir
-    t = _timeout_for(cfg)
-    status, res, secs = call_isolated(MOD, "run_scenario", {"cfg": c}, t)
-    return status, res, secs, t
+    return execute_batch([cfg], [workdir])[0]
 
 
 def witness_of(cfg, extra):
@@ -499,23 +522,39 @@ def run(ctx):
     ctx.note("format override with a different vertical parity (png pyramid, format='fits') is not explored: "
              "toasty/tests/test_toast.py pins it to unreversed rows")
     per_obl = {}
-    jobs = list(enumerate(scenarios))
-    # heavy (deep) scenarios first so the pool drains evenly
-    jobs.sort(key=lambda t: -(4 ** t[1]["depth"]) * len(t[1]["passes"]))
+    # serial scenarios are batched (interpreter start-up dominates them); parallel ones run alone so that
+    # a hang is attributed to exactly one scenario
+    order = sorted(range(len(scenarios)), key=lambda i: -(4 ** scenarios[i]["depth"]) * len(scenarios[i]["passes"]))
+    batches, cur, cost = [], [], 0
+    for i in order:
+        cfg = scenarios[i]
+        if max(cfg["parallel"]) > 1:
+            batches.append([i])
+            continue
+        c = (4 ** cfg["depth"]) * len(cfg["passes"])
+        if cur and (cost + c > 40 or len(cur) >= 6):
+            batches.append(cur)
+            cur, cost = [], 0
+        cur.append(i)
+        cost += c
+    if cur:
+        batches.append(cur)
+    batches.sort(key=lambda b: -sum((4 ** scenarios[i]["depth"]) * len(scenarios[i]["passes"]) for i in b))
     results = {}
 
-    def work(item):
-        idx, cfg = item
-        wd = os.path.join(ctx.workdir, "s%04d" % idx)
-        r = execute(cfg, wd)
+    def work(batch):
         import shutil
-        shutil.rmtree(wd, ignore_errors=True)
-        return idx, r
+        wds = [os.path.join(ctx.workdir, "s%04d" % i) for i in batch]
+        rs = execute_batch([scenarios[i] for i in batch], wds)
+        for wd in wds:
+            shutil.rmtree(wd, ignore_errors=True)
+        return list(zip(batch, rs))
 
     t0 = time.time()
-    with ThreadPoolExecutor(max_workers=8) as ex:
-        for idx, r in ex.map(work, jobs):
-            results[idx] = r
+    with ThreadPoolExecutor(max_workers=12) as ex:
+        for pairs in ex.map(work, batches):
+            for idx, r in pairs:
+                results[idx] = r
     tiles = 0
     for idx, cfg in enumerate(scenarios):
         status, res, secs, t = results[idx]
